@@ -201,6 +201,10 @@ def main(tier, seed):
                                                    ('error', T_ptr(T_ptr(T_td('GError'))))], ret=T_ptr(T_basic('char')))
             funcs[1] = dict(name='foo_f1', params=[('ready', T_td('GAsyncReadyCallback')), ('data', T_td('gpointer'))],
                             ret=T_ptr(T_ptr(T_basic('char'))))
+            funcs[2] = dict(name='foo_f2', params=[('n', T_td('gint'))], ret=T_ptr(T_ptr(T_basic('char', True), True)))     # const char * const *
+            funcs[3] = dict(name='foo_f3', params=[], ret=T_ptr(T_ptr(T_td('gchar', True), True)))
+            funcs[4] = dict(name='foo_f4', params=[('a', T_td('FooCb')), ('a_data', T_td('gpointer')), ('b', T_td('FooCb')), ('b_data', T_td('gpointer')),
+                                                   ('b_notify', T_td('GDestroyNotify'))], ret=T_td('gpointer'))
         syms = world_symbols()
         for f in funcs:
             syms.append(S.func(f['name'], src_tree(f['ret']), [S.param(n, src_tree(t)) for n, t in f['params']]))
@@ -245,6 +249,18 @@ def main(tier, seed):
             ck.failing_input('a returned char** is not an array of utf8', dict(function=f), detail=c['robs'])
         if f['ret'] in (T_td('FooAlias'), T_td('FooAlias2'), T_td('GQuark'), T_td('gint'), T_basic('int')) and c['robs']['transfer'] != 'none':
             ck.failing_input('a returned basic type (or alias of one) does not default to transfer none', dict(function=f), detail=c['robs'])
+        def base_const(t):
+            # everything the returned pointer leads to is const: "const char *", "const char * const *"
+            t = t[1]
+            while t[0] == 'ptr':
+                if not t[2]:
+                    return False
+                t = t[1]
+            return t[0] in ('basic', 'td') and t[2]
+        if f['ret'][0] == 'ptr' and base_const(f['ret']) and c['robs']['transfer'] != 'none':
+            ck.failing_input('a returned pointer to const does not default to transfer none', dict(function=f), detail=c['robs'])
+        if f['ret'] in (T_td('gpointer'), T_td('gconstpointer'), T_ptr(T_void())) and not c['robs']['nullable']:
+            ck.failing_input('a returned untyped pointer is not nullable', dict(function=f), detail=c['robs'])
         # callback arrangements
         CBS = ('FooCb', 'FooCb2', 'GFunc', 'GAsyncReadyCallback')
         finals = f['params'][:len(c['pobs'])]
